@@ -1,9 +1,10 @@
 """C04: writes through any handle never clobber changes made via other handles."""
+import copy
 from hypothesis import strategies as st
 
 from .. import gen, ops, wm
 from ..classes import ABSENT, ALL, CLASSES
-from ..plain import h64
+from ..plain import enc, h64
 from ..runner import Acc, hyp_search
 
 ID = "C04"
@@ -35,9 +36,34 @@ def _gen_step(ci, dom, state):
         roots = [i for i, h in enumerate(w.handles) if h.attached and not h.path]
         if len(roots) < 2:
             return {"t": "new", "r": 0, "id": w.next_id()}
+        q = state.setdefault("queue", [])
+        while q:
+            s = q.pop(0)
+            if w.usable(s["h"]):
+                state["last_obj"] = w.handles[s["h"]].obj
+                return copy.deepcopy(s)
         c = draw(st.integers(0, 19))
         if c == 0 and len(roots) < 3:
             return {"t": "new", "r": 0, "id": w.next_id()}
+        if c == 19:
+            # A-B-A: object A mutates, object B changes the same place, A repeats the SAME mutation
+            # (per-object "nothing changed since my last save" shortcuts must not drop the write)
+            ha = draw(st.sampled_from(roots)) if draw(st.booleans()) else draw(st.sampled_from(w.attached_handles()))
+            A = w.handles[ha]
+            hbs = [i for i in w.attached_handles() if w.handles[i].obj != A.obj and w.handles[i].path == A.path
+                   and w.handles[i].res == A.res]
+            if hbs:
+                hb = draw(st.sampled_from(hbs))
+                x = gen.draw_mutator(draw, w, ha, dom, p_raise=0)
+                if A.kind == "dict" and x["m"] in ("setitem", "setdefault", "delitem", "pop") and draw(st.integers(0, 3)):
+                    y = {"t": "op", "h": hb, "m": "setitem", "a": [x["a"][0], enc(draw(dom.scalars()))]}
+                elif A.kind == "list" and x["m"] == "setitem" and draw(st.integers(0, 3)):
+                    y = {"t": "op", "h": hb, "m": "setitem", "a": [x["a"][0], enc(draw(dom.scalars()))]}
+                else:
+                    y = gen.draw_mutator(draw, w, hb, dom, p_raise=0)
+                q.extend([y, copy.deepcopy(x)])
+                state["aba"] = state.get("aba", 0) + 1
+                return x
         nested = [i for i in w.attached_handles() if w.handles[i].path]
         if c < 6 and len(nested) < 6:
             s = gen.draw_take(draw, w)
@@ -94,9 +120,10 @@ def run_shard(spec, seed, tier, active):
     def one(data):
         draw = data.draw
         init = draw(st.one_of(st.just(ABSENT), dom.doc(ci.kind), dom.doc(ci.kind), dom.doc(ci.kind)))
-        w = wm.run_generated(ID, ci, [init], _gen_step(ci, dom, {}), draw, max_steps)
+        state = {}
+        w = wm.run_generated(ID, ci, [init], _gen_step(ci, dom, state), draw, max_steps)
         pats = _analyse(w)
-        cnt = {"stale_mutations": len(pats)}
+        cnt = {"stale_mutations": len(pats), "A_B_A_same_mutation_scripts": state.get("aba", 0)}
         for p in pats:
             cnt[f"stale.{p[0]}.depth{p[1]}"] = cnt.get(f"stale.{p[0]}.depth{p[1]}", 0) + 1
         sample = {"class": ci.name, "initial": repr(init), "steps": w.log[:16]} if pats else None
